@@ -153,7 +153,78 @@ def every_write_stored(chk, repo):
     chk.floor("R29.7", "__set__ implementations", n, 2)
 
 
+def map_route(chk, repo, rule="R29.8"):
+    """which sync groups keep their devices' variables in a map: the ones
+    that *are* programs (EBPFBase: the fast group and the process group,
+    whose constructor lays the variables out in the shared array).
+    DeviceVar.__get__ / __set__ go to the map for exactly those groups -
+    decided by folding the conditions under which they call the map
+    descriptor, for every sync group class of the package."""
+    chk.doc(rule, "device variables of a program-like sync group live in "
+                  "its map")
+    dv = repo.cls("ebpfcat.ebpfcat.DeviceVar")
+    base = "ebpfcat.ebpfcat.SyncGroupBase"
+    groups = [c for c in repo.subclasses(base)
+              if not c.module.name.endswith("_test")]
+    n = 0
+    for meth in ("__get__", "__set__"):
+        f = dv.methods.get(meth)
+        need(f is not None, f"DeviceVar.{meth} vanished")
+        sites = [c for c in walk_no_nested(f) if isinstance(c, ast.Call)
+                 and isinstance(c.func, ast.Attribute) and c.func.attr
+                 == meth and unparse(c.func.value).startswith("super(")]
+        need(sites, f"DeviceVar.{meth}: call of the map descriptor not "
+                    f"found")
+        bad = []
+        for g in groups:
+            want = repo.is_subclass(g, "ebpfcat.ebpf.EBPFBase")
+            inst = Obj(None, {"sync_group": Obj(g, {})})
+            env = {"self": Obj(dv, {"name": "v"}), "instance": inst,
+                   "owner": None, "value": 5}
+            taken = False
+            try:
+                for c in sites:
+                    facts = path_facts(stmt_of(c))
+                    ev = Evaluator(repo, f._module, dv)
+                    # (locals bound from the instance before the test)
+                    for st in walk_no_nested(f):
+                        if isinstance(st, ast.Assign) and len(
+                                st.targets) == 1 and isinstance(
+                                    st.targets[0], ast.Name) and st.lineno \
+                                < c.lineno and not any(isinstance(
+                                    y, ast.Call) for y in ast.walk(st.value)):
+                            try:
+                                env[st.targets[0].id] = ev.eval(st.value,
+                                                                env)
+                            except (Unknown, Raised):
+                                pass
+                    if all(bool(ev.truth(ev.eval(e_, env))) == t_
+                           for e_, t_ in facts):
+                        taken = True
+            except (Unknown, Raised) as e:
+                # conditions that look at more than the group: left to the
+                # other rules
+                chk.notes.append(f"{rule}: DeviceVar.{meth}: the route for "
+                                 f"{g.name} was not folded ({e})")
+                continue
+            n += 1
+            if taken != want:
+                bad.append(f"{g.name}: {'map' if taken else 'instance'} "
+                           f"route, but the group "
+                           f"{'is' if want else 'is not'} a program with "
+                           f"a map")
+        chk.ob(rule, dv.qualname + "." + meth, f"the map is used for "
+               f"exactly the program-like sync groups "
+               f"({', '.join(g.name for g in groups)})", not bad, f,
+               "; ".join(bad) + (": what one process writes never reaches "
+                                 "the shared array" if bad else "") or
+               "isinstance(sync_group, EBPFBase)")
+    if n:
+        chk.floor(rule, "(accessor, sync group class) pairs", n, 4)
+
+
 def run(chk, repo):
+    map_route(chk, repo)
     no_memo(chk, repo)
     every_write_stored(chk, repo)
     chk.doc("R29.5", "the process group runs the cycle of SyncGroup on the "
